@@ -13,4 +13,10 @@ static inline struct channel *cv_front(struct chanvec *q) { __CPROVER_assert(q->
 static inline void cv_push_back(struct chanvec *q, struct channel *c) { __CPROVER_assume(q->head + q->len < q->cap); q->a[q->head + q->len] = c; q->len = q->len + 1; }
 static inline void cv_erase_begin(struct chanvec *q) { __CPROVER_assert(q->len > 0, "[C12.deref] erase(begin()) of a non-empty vector"); q->head = q->head + 1; q->len = q->len - 1; }
 static inline void cv_clear(struct chanvec *q) { q->len = 0; }
+static inline void cv_pop_back(struct chanvec *q) { __CPROVER_assert(q->len > 0, "[C12.deref] pop_back() of a non-empty vector"); q->len = q->len - 1; }
+static inline void cv_swap_front_back(struct chanvec *q)
+{
+  __CPROVER_assert(q->len > 0, "[C12.deref] front() / back() of a non-empty vector");
+  struct channel *t = q->a[q->head]; q->a[q->head] = q->a[q->head + q->len - 1]; q->a[q->head + q->len - 1] = t;
+}
 #endif
